@@ -246,6 +246,20 @@ func runC02(c *Ctx) {
 			decode(c, n.CashAddressPrefix[:i]+"\u017f"+n.CashAddressPrefix[i+1:]+":"+body, net)
 		}
 	}
+	// white space around a valid cash address (with and without the prefix)
+	for k := 0; k < c.Pick(6, 60); k++ {
+		net := 1 + k%len(nets)
+		n := nets[net-1]
+		body := refCashString(n.CashAddressPrefix, refTo5(append([]byte{[]byte{0, 8}[k%2]}, randBytes(r, 20)...), 0))
+		for _, w := range wsWraps(body) {
+			decode(c, w, net)
+		}
+		for _, w := range wsWraps(n.CashAddressPrefix + ":" + body) {
+			decode(c, w, net)
+		}
+		decode(c, n.CashAddressPrefix+": "+body, net)
+		decode(c, n.CashAddressPrefix+" :"+body, net)
+	}
 	// byte-level aliases: a character replaced by a byte that a sloppy normalisation maps onto it (bit 5 cleared or
 	// set: 'q' -> 'Q' is case folding, but '2' -> 0x12 and 'q' -> 0x11+... are not; bit 7 set; bit 6 flipped)
 	for k := 0; k < c.Pick(40, 400); k++ {
@@ -317,6 +331,11 @@ func runC02(c *Ctx) {
 					t := append([]rune{}, rs...)
 					t[p] = off + rs[p]
 					decode(c, string(t), net)
+				}
+			}
+			if ln == 20 && (ver == 0 || ver == 5 || ver == 111 || ver == 196) {
+				for _, w := range wsWraps(s) {
+					decode(c, w, net)
 				}
 			}
 			if ln == 20 && ver%16 == 0 { // one corrupted checksum
